@@ -30,7 +30,9 @@ import (
 
 	"github.com/99designs/gqlgen/graphql"
 	"github.com/99designs/gqlgen/graphql/handler"
+	"github.com/99designs/gqlgen/graphql/handler/lru"
 	"github.com/99designs/gqlgen/graphql/handler/transport"
+	"github.com/vektah/gqlparser/v2/ast"
 
 	"verifsim/core"
 	"verifsim/execsim"
@@ -278,7 +280,11 @@ func Run(rc *core.RunCtx) {
 		return fmt.Errorf("recovered:%v", err)
 	})
 
-	fault := []string{"none", "truncate-eof", "truncate-err", "rechunk", "content-length", "corrupt", "json-prefix"}[t.Choose(7, "fault")]
+	fault := []string{"none", "truncate-eof", "truncate-err", "rechunk", "content-length", "corrupt", "json-prefix", "invalid-doc"}[t.Choose(8, "fault")]
+	// a document cache, as handler.NewDefaultServer configures one
+	if t.Bool(1, 2, "query-cache") {
+		srv.SetQueryCache(lru.New[*ast.QueryDocument](4))
+	}
 	var faultDesc string
 	var body []byte
 	hdr := http.Header{}
@@ -289,6 +295,13 @@ func Run(rc *core.RunCtx) {
 	}
 	if base.OpName != "" {
 		ops["operationName"] = base.OpName
+	}
+	if fault == "invalid-doc" {
+		// syntactically fine, rejected by validation (or by operation selection)
+		docs := []string{`{ nope }`, `{ me { ...Missing } }`, `{ me { id nope { x } } }`, `query A { hello } query B { hello }`,
+			`{ user(id: {a: 1}) { id } }`, `{ me }`, `{ hello { x } }`, `fragment F on User { id } { me { ...F ...G } }`, `query($v: Nope) { hello }`, `{ me { id @nope } }`}
+		ops["query"] = docs[t.Choose(len(docs), "invalid-doc")]
+		faultDesc = "invalid document"
 	}
 	if fault == "corrupt" {
 		var c any
@@ -532,6 +545,24 @@ func Run(rc *core.RunCtx) {
 	}
 	rec := httptest.NewRecorder()
 	srv.ServeHTTP(rec, r)
+	// the same bytes again (a client retrying): the second answer is the one judged below, the
+	// recover hook is watched over both
+	if (fault == "none" || fault == "corrupt" || fault == "json-prefix" || fault == "invalid-doc") && kind != "multipart" && t.Bool(1, 3, "repeat") {
+		var r2 *http.Request
+		if method == "GET" {
+			r2 = httptest.NewRequest(method, target, nil)
+		} else {
+			r2 = httptest.NewRequest(method, target, &simhttp.Body{Data: body, FailAt: -1})
+			r2.ContentLength = contentLength
+		}
+		for k, vs := range hdr {
+			r2.Header[k] = vs
+		}
+		rec = httptest.NewRecorder()
+		srv.ServeHTTP(rec, r2)
+		faultDesc += " (sent twice)"
+		w.Count("repeated_requests")
+	}
 	out := outcome{Status: rec.Code, Header: rec.Header(), Body: rec.Body.Bytes()}
 
 	desc := func() string {
